@@ -133,6 +133,10 @@ ALL = [
        {'A': TM([[0.0]]), 'B': TM([[1.0]])}, classes=['A', 'B'], priorities={'A': 0, 'B': 1}, prio_preempt=['reroute'], tracker='NodePopulation', T=20.0),
     # stop by customer count
     mk('count_complete_with_reneging', [I(1)], [det(1.0)], [det(2.5)], TM([[0.0]]), reneging={'C0': [det(2.0)]}, run={'method': 'customers', 'n': 6, 'cmethod': 'Complete', 'T': 0}),
+    # an arrival stream that ends (an infinite inter-arrival time): the count is reached only by the very last customer in the system
+    mk('finite_arrivals_count_reached_by_last_customer', [I(1)], [seq(1.0, 1.0, 1.0, 1.0, float('inf'))], [det(2.5)], TM([[0.0]]), run={'method': 'customers', 'n': 4, 'cmethod': 'Complete', 'T': 0}),
+    mk('finite_arrivals_finish_count_two_nodes', [I(1), I(2)], [seq(0.5, 1.0, 1.0, float('inf')), None], [det(2.0), det(1.5)], TM([[0.0, 1.0], [0.0, 0.0]]), run={'method': 'customers', 'n': 3, 'cmethod': 'Finish', 'T': 0}),
+    mk('finite_arrivals_time_run', [I(1)], [seq(1.0, 1.0, 1.0, float('inf'))], [det(2.5)], TM([[0.0]]), T=30.0),
     mk('count_accept_with_baulking', [I(1)], [det(1.0)], [det(2.5)], TM([[0.0]]), baulking={'C0': [{'b': 'thresh', 'k': 2}]}, run={'method': 'customers', 'n': 6, 'cmethod': 'Accept', 'T': 0}),
 ]
 PINNED = {}
